@@ -957,11 +957,11 @@ def _get_constraints(constraints):
             if "fun" not in constraint or not callable(constraint["fun"]):
                 raise ValueError("The constraint function must be callable.")
             nonlinear_constraints.append(
-                {
-                    "fun": constraint["fun"],
-                    "type": constraint["type"],
-                    "args": constraint.get("args", ()),
-                }
+                _get_nonlinear_constraint(
+                    constraint["fun"],
+                    constraint["type"],
+                    constraint.get("args", ()),
+                )
             )
         else:
             raise TypeError(
@@ -970,6 +970,24 @@ def _get_constraints(constraints):
                 "scipy.optimize.NonlinearConstraint, or dict."
             )
     return linear_constraints, nonlinear_constraints
+
+
+def _get_nonlinear_constraint(fun, kind, args):
+    """
+    Build the nonlinear constraint ``fun(x, *args) == 0`` (if `kind` is
+    ``"eq"``) or ``fun(x, *args) >= 0`` (if `kind` is ``"ineq"``).
+    """
+    if not isinstance(args, tuple):
+        args = (args,)
+
+    def fun_with_args(x):
+        return fun(x, *args)
+
+    return NonlinearConstraint(
+        fun_with_args,
+        0.0,
+        0.0 if kind == "eq" else np.inf,
+    )
 
 
 def _set_default_options(options, n):
